@@ -374,6 +374,8 @@ type vfMethodSpec struct {
 	verb  string
 	tmpl  string
 	extra []vfRule // additional bindings (m unused)
+	cs    bool     // client streaming
+	ss    bool     // server streaming
 }
 
 // (from h_registry.go)
@@ -407,7 +409,7 @@ var vfSvcB2 = vfSvcSpec{full: "vf.B", file: "vfab.proto", reqName: "ReqB", metho
 // (from h_registry.go)
 func vfSpecsOfFile(file string) []vfSvcSpec {
 	var out []vfSvcSpec
-	for _, sp := range []vfSvcSpec{vfSvcA, vfSvcB, vfSvcA2, vfSvcB2} {
+	for _, sp := range []vfSvcSpec{vfSvcA, vfSvcB, vfSvcA2, vfSvcB2, vfSvcP} {
 		if sp.file == file {
 			out = append(out, sp)
 		}
@@ -431,10 +433,20 @@ func vfFakeSvc(sp vfSvcSpec) *fakeSvc {
 	resp := newFakeMD("vf.Resp"+sp.reqName, strField("r"))
 	svc := &fakeSvc{full: sp.full, methods: &fakeMethodList{}}
 	for _, ms := range sp.methods {
-		svc.methods.list = append(svc.methods.list, &fakeMethod{full: sp.full + "." + ms.name, in: req, out: resp, opts: &fakeOpts{rule: vfSpecRule(ms)}})
+		fm := &fakeMethod{full: sp.full + "." + ms.name, in: req, out: resp, cs: ms.cs, ss: ms.ss, opts: &fakeOpts{}}
+		if ms.tmpl != "" {
+			fm.opts = &fakeOpts{rule: vfSpecRule(ms)}
+		}
+		svc.methods.list = append(svc.methods.list, fm)
 	}
 	return svc
 }
+
+// vfSvcP: a backend service with one method of each streaming shape and no HTTP annotations
+// (reached through the implicit /vf.P/<Method> gRPC binding), for the proxy harness.
+var vfSvcP = vfSvcSpec{full: "vf.P", file: "vfp.proto", reqName: "ReqP", methods: []vfMethodSpec{
+	{name: "U"}, {name: "CS", cs: true}, {name: "SS", ss: true}, {name: "BD", cs: true, ss: true},
+}}
 
 // (from h_registry.go)
 // vfFileBytes returns the serialized FileDescriptorProto of a service spec. Natively these are the
@@ -465,10 +477,19 @@ func vfFileBytes(file string) []byte {
 		svc := &descriptorpb.ServiceDescriptorProto{Name: proto.String(sp.full[3:])}
 		for _, ms := range sp.methods {
 			mo := &descriptorpb.MethodOptions{}
-			proto.SetExtension(mo, annotations.E_Http, vfSpecRule(ms))
-			svc.Method = append(svc.Method, &descriptorpb.MethodDescriptorProto{
+			if ms.tmpl != "" {
+				proto.SetExtension(mo, annotations.E_Http, vfSpecRule(ms))
+			}
+			mdp := &descriptorpb.MethodDescriptorProto{
 				Name: proto.String(ms.name), InputType: proto.String(".vf." + sp.reqName), OutputType: proto.String(".vf.Resp" + sp.reqName), Options: mo,
-			})
+			}
+			if ms.cs {
+				mdp.ClientStreaming = proto.Bool(true)
+			}
+			if ms.ss {
+				mdp.ServerStreaming = proto.Bool(true)
+			}
+			svc.Method = append(svc.Method, mdp)
 		}
 		fd.Service = append(fd.Service, svc)
 	}
